@@ -74,7 +74,7 @@ def confirm_case(driver, family, c, o, keys, by_id=None):
     """Re-run a discrepant case in a fresh process. Returns the replayable case if it reproduces, else None.
     A process death may be caused by a goroutine left behind by an earlier case of the same worker: then the
     window of preceding cases is replayed together and becomes the replay unit."""
-    again = core.run_driver(driver, family, [dict(c)], nproc=1)[str(c["id"])]
+    again = run_one(driver, family, c)
     if same_obs(again, o, keys):
         return c
     if o.get("crash") and by_id is not None:
@@ -82,7 +82,32 @@ def confirm_case(driver, family, c, o, keys, by_id=None):
         res = core.run_driver(driver, family, [dict(w) for w in window], nproc=1)
         if any(r.get("crash") for r in res.values()):
             return {"id": str(c["id"]), "window": window}
+    # state kept inside the PROCESS by earlier cases (package-level caches ...): the observation depends on what the same driver
+    # process executed before; the case then reproduces only after those cases, which become part of the replay unit (`_prefix`)
+    if not o.get("crash") and isinstance(o, dict) and o.get("_pre"):
+        for n in (8, 64, o["_pre"]):
+            pre = [dict(w) for w in core.predecessors(family, o, n)]
+            if pre and same_obs(run_one(driver, family, dict(c, _prefix=pre)), o, keys):
+                return dict(c, _prefix=pre)
+            if n >= o["_pre"]:
+                break
     return None
+
+
+def wp(case, rc):
+    """the reported (replayable) case carries the process history it needs, when confirmation found one"""
+    if isinstance(rc, dict) and rc.get("_prefix"):
+        return dict(case, _prefix=rc["_prefix"])
+    return case
+
+
+def run_one(driver, family, c):
+    """one case in a fresh process, after the cases of its `_prefix` (if any) in the same process"""
+    c = dict(c)
+    pre = c.pop("_prefix", None) or []
+    extra = {k: c.pop(k) for k in list(c) if k in ("inst", "mode", "only", "props")}   # judge-side annotations, not driver input
+    res = core.run_driver(driver, family, [{k: v for k, v in dict(x).items() if k not in ("inst", "mode", "only", "props")} for x in pre] + [c], nproc=1)
+    return res[str(c["id"])]
 
 
 def run_window(driver, family, case):
@@ -217,7 +242,7 @@ def c06(run):
 def replay_expr(run, body):
     driver = core.build_driver(run.work)
     c = dict(body["case"])
-    o = core.run_driver(driver, "expr", [c], nproc=1)[str(c["id"])]
+    o = run_one(driver, "expr", c)
     if "k" not in o:
         o = {"k": "panic"}
     ev = [{"ops": c["ops"], "env": c["env"], "res": {k: v for k, v in o.items() if k in ("k", "v")}}]
@@ -236,18 +261,18 @@ def emb_of(run, i):
     return run.seed * 7919 + i * 31 + 1
 
 
-def dl_events(run, driver, join_cases, run_cases):
+def dl_events(run, driver, join_cases, run_cases, nproc=None):
     """Execute join / run cases on the real engine and return trace events (case + observation)."""
     events, src = [], []
     if join_cases:
-        res = core.run_driver(driver, "join", join_cases)
+        res = core.run_driver(driver, "join", join_cases, nproc=nproc)
         for c in join_cases:
             o = res[c["id"]]
             events.append({"kind": "join", "body": c["body"], "facts": c["facts"], "k": c["k"],
                            "obs": o if "rows" in o else {"rows": [[-999]], "n": -1}})
             src.append(("join", c, o))
     if run_cases:
-        res = core.run_driver(driver, "run", run_cases, per_case_timeout=60)
+        res = core.run_driver(driver, "run", run_cases, per_case_timeout=60, nproc=nproc)
         for c in run_cases:
             o = res[c["id"]]
             ok = "res" in o
@@ -350,8 +375,8 @@ def replay_dl(kind):
     def f(run, body):
         driver = core.build_driver(run.work)
         c = dict(body["case"])
-        cs = c["window"] if "window" in c else [c]
-        events, src = dl_events(run, driver, cs if kind == "join" else [], cs if kind == "run" else [])
+        cs = c["window"] if "window" in c else [dict(x) for x in c.get("_prefix", [])] + [{k: v for k, v in c.items() if k != "_prefix"}]
+        events, src = dl_events(run, driver, cs if kind == "join" else [], cs if kind == "run" else [], nproc=1)
         bad = validate_traces(run, "TraceDatalog", "TraceDatalog", events, chunks=1)
         run.count("replay")
         if bad:
@@ -528,7 +553,7 @@ def authz_check(run, mode, cfgs, sample_n=None):
             nbad += 1
             sig = {"instance": inst_text(c), "what": bad[0][:80]}
             rc = confirm_case(driver, "authz", dc, o, ("obs",))
-            run.report(sig, dict(dc, inst=c, mode=mode), "authz", "%s: %s" % (inst_text(c), "; ".join(bad)), (lambda rc=rc: rc is not None))
+            run.report(sig, wp(dict(dc, inst=c, mode=mode), rc), "authz", "%s: %s" % (inst_text(c), "; ".join(bad)), (lambda rc=rc: rc is not None))
     run.traces += len(cases)
     mid = insts[len(insts) // 2]
     run.sample({"instance": inst_text(mid), "spec_verdict_per_prefix": mid["vs"], "authority_closure": mid["world"], "block_worlds": mid["bws"]})
@@ -539,7 +564,7 @@ def replay_authz(run, body):
     driver = core.build_driver(run.work)
     dc = dict(body["case"])
     c, mode = dc.pop("inst"), dc.pop("mode")
-    o = core.run_driver(driver, "authz", [dc], nproc=1)[str(dc["id"])]
+    o = run_one(driver, "authz", dc)
     bad = authz_judge(c, dc, o, mode) if not o.get("crash") else ["process died"]
     run.count("replay")
     if bad:
@@ -739,7 +764,7 @@ def life_check(run, cfgs):
             break
         rc = confirm_case(driver, "authz", dc, o, ("obs",))
         nconf += rc is not None
-        run.report({"history": life_text(c)}, dict(dc, inst=c), "life", "%s: %s" % (life_text(c), "; ".join(bad)), (lambda rc=rc: rc is not None))
+        run.report({"history": life_text(c)}, wp(dict(dc, inst=c), rc), "life", "%s: %s" % (life_text(c), "; ".join(bad)), (lambda rc=rc: rc is not None))
     run.traces += len(cases)
     for k in (len(insts) // 3, 2 * len(insts) // 3):
         run.sample({"history": life_text(insts[k]), "expected": [h["exp"] for h in insts[k]["hist"] if h["op"] in ("authorize", "query", "save")]})
@@ -750,7 +775,7 @@ def replay_life(run, body):
     driver = core.build_driver(run.work)
     dc = dict(body["case"])
     c = dc.pop("inst")
-    o = core.run_driver(driver, "authz", [dc], nproc=1)[str(dc["id"])]
+    o = run_one(driver, "authz", dc)
     bad = life_judge(c, o) if not o.get("crash") else ["process died"]
     run.count("replay")
     if bad:
@@ -763,7 +788,7 @@ REPLAYERS["life"] = replay_life
 def replay_polcorrupt(run, body):
     driver = core.build_driver(run.work)
     c = dict(body["case"])
-    o = core.run_driver(driver, "polcorrupt", [c], nproc=1)[str(c["id"])]
+    o = run_one(driver, "polcorrupt", c)
     run.count("replay")
     run.count("replay2")
     if o.get("crash") or o.get("panic") or (o.get("must") == "error" and o.get("loaded")):
@@ -827,7 +852,7 @@ def c18(run):
                 bad.append("a malformed snapshot (%s) is loaded without error" % c["knob"])
         if bad and len(run.violations) < 20:
             rc = confirm_case(driver, "polcorrupt", c, o, ("panic", "loaded"))
-            run.report({"what": "panic" if "panic" in bad[0] or "died" in bad[0] else "accepted", "knob": c["knob"]}, c, "polcorrupt",
+            run.report({"what": "panic" if "panic" in bad[0] or "died" in bad[0] else "accepted", "knob": c["knob"]}, wp(c, rc), "polcorrupt",
                        "snapshot %s%s: %s" % (c["knob"] or "(valid)", " + byte corruption #%d" % c["corrupt"] if c["corrupt"] else "", "; ".join(bad)),
                        (lambda rc=rc: rc is not None))
     run.traces += len(cases)
@@ -989,7 +1014,7 @@ def heap_stage(run, driver, cases, label, family="heap", only=None):
         if bad and nbad < 20:
             nbad += 1
             rc = confirm_case(driver, family, c, o, ("bad",)) if not c.get("conc") else c
-            run.report({"history": heap_text(c)}, dict(c, only=only) if only else c, family, "%s %s: %s" % (label, heap_text(c), "; ".join(bad[:3])), (lambda rc=rc: rc is not None))
+            run.report({"history": heap_text(c)}, wp(dict(c, only=only) if only else c, rc), family, "%s %s: %s" % (label, heap_text(c), "; ".join(bad[:3])), (lambda rc=rc: rc is not None))
 
 
 @check("C08")
@@ -1042,7 +1067,7 @@ def c08(run):
 def replay_heap(run, body):
     driver = core.build_driver(run.work, race=bool(body["case"].get("conc")))
     c = dict(body["case"])
-    o = core.run_driver(driver, body["family"], [c], nproc=1)[str(c["id"])]
+    o = run_one(driver, body["family"], c)
     bad = heap_judge(c, o) if not o.get("crash") else ["process died"]
     if c.get("only"):
         bad = [b for b in bad if c["only"] in b or "process died" in b]
@@ -1201,7 +1226,7 @@ def chain_stage(run, driver, cases, props, label):
         if bad and nbad < 20:
             nbad += 1
             rc = confirm_case(driver, "chain", c, o, ("accept",)) if c.get("atk") else c
-            run.report({"case": chain_text(c)[:300], "what": bad[0][:60]}, dict(c, props=sorted(props)), "chain", "%s %s: %s" % (label, chain_text(c), "; ".join(bad[:3])),
+            run.report({"case": chain_text(c)[:300], "what": bad[0][:60]}, wp(dict(c, props=sorted(props)), rc), "chain", "%s %s: %s" % (label, chain_text(c), "; ".join(bad[:3])),
                        (lambda rc=rc: rc is not None))
     run.traces += len(cases)
 
@@ -1210,7 +1235,7 @@ def replay_chain(run, body):
     driver = core.build_driver(run.work)
     c = dict(body["case"])
     props = set(c.pop("props"))
-    o = core.run_driver(driver, "chain", [c], nproc=1)[str(c["id"])]
+    o = run_one(driver, "chain", c)
     bad = chain_judge(c, o, props) if not o.get("crash") else ["process died"]
     run.count("replay")
     if bad:
@@ -1324,7 +1349,7 @@ def c09(run):
         bad = authz_judge(c, dc, o, "C09") if not o.get("crash") else ["process died"]
         if bad:
             rc = confirm_case(driver, "authz", dc, o, ("obs",))
-            run.report({"instance": inst_text(c), "sealed": True}, dict(dc, inst=c, mode="C09"), "authz", "sealed token: %s: %s" % (inst_text(c), "; ".join(bad)),
+            run.report({"instance": inst_text(c), "sealed": True}, wp(dict(dc, inst=c, mode="C09"), rc), "authz", "sealed token: %s: %s" % (inst_text(c), "; ".join(bad)),
                        (lambda rc=rc: rc is not None))
     run.traces += len(cases)
 
@@ -1397,7 +1422,7 @@ def c20(run):
         bad = rng_judge(c, o) if not o.get("crash") else ["process died: " + o.get("stderr", "")[-300:]]
         if bad and len(run.violations) < 20:
             rc = confirm_case(driver, "rng", c, o, ("outcome",))
-            run.report({"op": c["op"], "what": "panic" if "panic" in bad[0] else bad[0][:50]}, c, "rng",
+            run.report({"op": c["op"], "what": "panic" if "panic" in bad[0] else bad[0][:50]}, wp(c, rc), "rng",
                        "%s with a source failing (%s) after %d bytes, reads of <=%d: %s" % (c["op"], c["fault"], c["k"], c["chunk"], "; ".join(bad)),
                        (lambda rc=rc: rc is not None))
     run.traces += len(cases)
@@ -1409,7 +1434,7 @@ def c20(run):
 def replay_rng(run, body):
     driver = core.build_driver(run.work)
     c = dict(body["case"])
-    o = core.run_driver(driver, "rng", [c], nproc=1)[str(c["id"])]
+    o = run_one(driver, "rng", c)
     bad = rng_judge(c, o) if not o.get("crash") else ["process died"]
     run.count("replay")
     run.count("replay2")
@@ -1507,7 +1532,7 @@ def c07(run):
             continue
         if o.get("roundtrip"):
             rc = confirm_case(driver, "wire", c, o, ("roundtrip",))
-            run.report({"what": o["roundtrip"][0][:70]}, c, "wire", wire_text(c) + ": " + "; ".join(o["roundtrip"]), (lambda rc=rc: rc is not None))
+            run.report({"what": o["roundtrip"][0][:70]}, wp(c, rc), "wire", wire_text(c) + ": " + "; ".join(o["roundtrip"]), (lambda rc=rc: rc is not None))
         events.append(wire_event(c, o))
         idx.append(c)
     bad = validate_traces(run, "TraceWire", "TraceWire", events)
@@ -1529,7 +1554,7 @@ def c07(run):
 def replay_wire(run, body):
     driver = core.build_driver(run.work)
     c = dict(body["case"])
-    o = core.run_driver(driver, "wire", [c], nproc=1)[str(c["id"])]
+    o = run_one(driver, "wire", c)
     run.count("replay")
     run.count("replay2")
     if o.get("crash") or "wire_error" in o or o.get("roundtrip"):
@@ -1557,7 +1582,7 @@ def chainmut_stage(run, driver, n, label="L3 wire mutation"):
         run.count((o["desc"].split(" ")[0], o["desc"][:40], o["blocks"], o["accept"]))
         if o["stage"].startswith("PANIC"):
             rc = confirm_case(driver, "chainmut", c, o, ("desc", "stage"))
-            run.report({"what": "panic", "mutation": o["desc"]}, c, "chainmut", "%s: mutation '%s' makes verification panic instead of rejecting: %s" % (label, o["desc"], o["stage"]),
+            run.report({"what": "panic", "mutation": o["desc"]}, wp(c, rc), "chainmut", "%s: mutation '%s' makes verification panic instead of rejecting: %s" % (label, o["desc"], o["stage"]),
                        (lambda rc=rc: rc is not None))
             continue
         events.append({"tok": o["tok"], "malformed": o["malformed"], "accept": o["accept"]})
@@ -1566,7 +1591,7 @@ def chainmut_stage(run, driver, n, label="L3 wire mutation"):
     for b in bad[:20]:
         c, o = src[b]
         rc = confirm_case(driver, "chainmut", c, o, ("desc", "accept"))
-        run.report({"what": "accept" if o["accept"] else "reject", "mutation": o["desc"]}, c, "chainmut",
+        run.report({"what": "accept" if o["accept"] else "reject", "mutation": o["desc"]}, wp(c, rc), "chainmut",
                    "%s: token mutated by '%s' is %s by the library (%s); Chain!Verify on its abstraction says %s. abstraction=%s" % (
                        label, o["desc"], "ACCEPTED" if o["accept"] else "rejected", o["stage"], "reject" if o["accept"] else "accept", json.dumps(o["tok"])[:400]),
                    (lambda rc=rc: rc is not None))
@@ -1577,7 +1602,7 @@ def chainmut_stage(run, driver, n, label="L3 wire mutation"):
 def replay_chainmut(run, body):
     driver = core.build_driver(run.work)
     c = dict(body["case"])
-    o = core.run_driver(driver, "chainmut", [c], nproc=1)[str(c["id"])]
+    o = run_one(driver, "chainmut", c)
     run.count("replay")
     run.count("replay2")
     if o.get("crash") or "tok" not in o or o["stage"].startswith("PANIC"):
@@ -1708,14 +1733,14 @@ def corpus_stage(run, driver):
                 bad.append("independently decoded symbol tables %s differ from the ones documented for the sample %s" % (o["symbols"], exp))
         if bad:
             rc = confirm_case(driver, "corpus", c, o, ("bad",))
-            run.report({"what": bad[0][:60], "file": c["file"]}, c, "corpus", "conformance sample %s: %s" % (c["file"], "; ".join(bad)), (lambda rc=rc: rc is not None))
+            run.report({"what": bad[0][:60], "file": c["file"]}, wp(c, rc), "corpus", "conformance sample %s: %s" % (c["file"], "; ".join(bad)), (lambda rc=rc: rc is not None))
     run.traces += len(cases)
 
 
 def replay_corpus(run, body):
     driver = core.build_driver(run.work)
     c = dict(body["case"])
-    o = core.run_driver(driver, "corpus", [c], nproc=1)[str(c["id"])]
+    o = run_one(driver, "corpus", c)
     run.count("replay")
     run.count("replay2")
     if o.get("crash") or o.get("bad"):
@@ -1741,7 +1766,7 @@ def foreign_stage(run, driver):
             raise Infra("foreign driver: " + json.dumps(o)[:300])
         if bad:
             rc = confirm_case(driver, "foreign", c, o, ("bad",))
-            run.report({"what": bad[0][:60], "encoding": c["knobs"][0]["v"]}, c, "foreign", "token written by another encoder (%s): %s" % (adv_text(c), "; ".join(bad)),
+            run.report({"what": bad[0][:60], "encoding": c["knobs"][0]["v"]}, wp(c, rc), "foreign", "token written by another encoder (%s): %s" % (adv_text(c), "; ".join(bad)),
                        (lambda rc=rc: rc is not None))
     run.traces += len(cases)
 
@@ -1749,7 +1774,7 @@ def foreign_stage(run, driver):
 def replay_foreign(run, body):
     driver = core.build_driver(run.work)
     c = dict(body["case"])
-    o = core.run_driver(driver, "foreign", [c], nproc=1)[str(c["id"])]
+    o = run_one(driver, "foreign", c)
     run.count("replay")
     run.count("replay2")
     if o.get("crash") or o.get("bad"):
@@ -1907,7 +1932,7 @@ def authz_l3(run, driver, label="L3 random program"):
         tok = c["toks"][0]
         inst = {"auth": tok["auth"], "blocks": tok["blocks"], "az": c["script"][1]["az"]}
         rc = confirm_case(driver, "authz", c, o, ("obs",))
-        run.report({"what": "verdict/closure", "instance": inst_text(inst)[:200]}, c, "authzgen",
+        run.report({"what": "verdict/closure", "instance": inst_text(inst)[:200]}, wp(c, rc), "authzgen",
                    "%s (token via %s): %s -> Authorize = %s, authority-level facts = %s; rejected by TraceAuthz (RefVerdict / Closure / Monotone)" % (
                        label, tok["via"], inst_text(inst), o["obs"][2].get("v"), rows(o["obs"][3].get("rows"))), (lambda rc=rc: rc is not None))
     if src:
@@ -1919,7 +1944,7 @@ def authz_l3(run, driver, label="L3 random program"):
 def replay_authzgen(run, body):
     driver = core.build_driver(run.work)
     c = dict(body["case"])
-    o = core.run_driver(driver, "authz", [c], nproc=1)[str(c["id"])]
+    o = run_one(driver, "authz", c)
     run.count("replay")
     run.count("replay2")
     if o.get("crash") or "obs" not in o:
